@@ -18,9 +18,9 @@ PROP = "C16"
 
 
 def plan(tier, seed):
-    k = 16 if tier == "quick" else 300
+    k = 24 if tier == "quick" else 300
     shards = [{"kind": "hooked", "seed": seed, "shard": i, "n": 12} for i in range(k)]
-    kc = 24 if tier == "quick" else 400
+    kc = 32 if tier == "quick" else 400
     shards += [{"kind": "procs", "seed": seed, "shard": i} for i in range(kc)]
     return shards
 
